@@ -1,6 +1,12 @@
-"""C02-C04 share one suite (see harness/schedlib.py and props/schedsuite.py)."""
-from props import schedsuite
+"""C01-C04 share one suite for the agent scheduler (harness/schedlib.py, props/schedsuite.py);
+C01-C03 also cover the application-level slot finder (props/nodelistsuite.py)."""
+from props import schedsuite, nodelistsuite
 PROP = 'C02'
 LEAN_TARGETS = ['RPVerif.Props.C02']
-def run(ctx): schedsuite.run(ctx, 'C02')
-def replay(ctx, data): return schedsuite.replay(ctx, data, 'C02')
+def run(ctx):
+    schedsuite.run(ctx, 'C02')
+    nodelistsuite.run(ctx, 'C02')
+def replay(ctx, data):
+    if 'nodelist' in data['input']:
+        return nodelistsuite.replay(ctx, data, 'C02')
+    return schedsuite.replay(ctx, data, 'C02')
